@@ -17,15 +17,15 @@ func (verifStoreErr) Error() string { return "verif: store I/O failure" }
 
 type verifNopLogger struct{}
 
-func (verifNopLogger) Printf(string, ...interface{})   {}
-func (verifNopLogger) Print(...interface{})            {}
-func (verifNopLogger) Println(...interface{})          {}
-func (verifNopLogger) Fatal(...interface{})            {}
-func (verifNopLogger) Fatalf(string, ...interface{})   {}
-func (verifNopLogger) Fatalln(...interface{})          {}
-func (verifNopLogger) Panic(...interface{})            {}
-func (verifNopLogger) Panicf(string, ...interface{})   {}
-func (verifNopLogger) Panicln(...interface{})          {}
+func (verifNopLogger) Printf(string, ...interface{}) {}
+func (verifNopLogger) Print(...interface{})          {}
+func (verifNopLogger) Println(...interface{})        {}
+func (verifNopLogger) Fatal(...interface{})          {}
+func (verifNopLogger) Fatalf(string, ...interface{}) {}
+func (verifNopLogger) Fatalln(...interface{})        {}
+func (verifNopLogger) Panic(...interface{})          {}
+func (verifNopLogger) Panicf(string, ...interface{}) {}
+func (verifNopLogger) Panicln(...interface{})        {}
 
 var _ logger.Interface = verifNopLogger{}
 
